@@ -1,6 +1,7 @@
-SPECIFICATION MCSpec
-CONSTANTS N = 3
- V = 2
+SPECIFICATION GenSpec
+CONSTANTS N = 4
+ GenFamily = "batch"
+ V = 3
  DropVerify = "none"
  SkipPropMatch = FALSE
  SkipGater = FALSE
@@ -12,5 +13,5 @@ CONSTANTS N = 3
  AggBatchFor = "none"
  MemoVerifier = FALSE
  ReplayPolicy = "admit"
-INVARIANTS TypeOK OnlyValidEnter ValidEnters PeerAllOrNothing
+INVARIANTS Emit
 CHECK_DEADLOCK FALSE
